@@ -193,6 +193,12 @@ func spaces(tier string) []*gridx.Space {
 		{"adimp": 0.2, "pctim": 0.1, "sarva": 0.1, "side": 0.3, "ssout": 0.2},
 		{"uztwm": 5, "uzfwm": 5, "lztwm": 5, "lzfsm": 5, "lzfpm": 5},
 		{"uztwm": 125, "uzfwm": 75, "lztwm": 300, "lzfsm": 300, "lzfpm": 600, "zperc": 80, "rexp": 3},
+		// unit-hydrograph ordinates that do not sum to one (the kernel normalises them): just above, well above, below;
+		// fully impervious so that all rain is routed through them
+		{"uh1": 0.8, "uh2": 0.1, "uh3": 0.05, "uh4": 0.03, "uh5": 0.029, "pctim": 1},
+		{"uh1": 0.8, "uh2": 0.1, "uh3": 0.05, "uh4": 0.03, "uh5": 0.029, "pctim": 0.4, "adimp": 0.2},
+		{"uh1": 1, "uh2": 0.5, "uh3": 0.25, "uh4": 0, "uh5": 0, "pctim": 1},
+		{"uh1": 0.5, "uh2": 0.3, "uh3": 0.195, "uh4": 0, "uh5": 0, "pctim": 1},
 	} {
 		sp = append(sp, gridx.PV("Sacramento", set))
 		sn = append(sn, fmt.Sprint(set))
@@ -251,6 +257,10 @@ func spaces(tier string) []*gridx.Space {
 	rc := &acct{model: "RunoffCoefficient", runoff: 0, et: -1, compA: -1, compB: -1,
 		storage: func(p map[string]float64, st []float64) (float64, [][3]interface{}) { return 0, nil }}
 	out = append(out, &gridx.Space{Model: "RunoffCoefficient", Params: rp, PNames: rn, Letters: [][]float64{{0}, {2}, {30}, {150}}, T: T, MinT: 1, Oracle: oracle(rc)})
+	// single calls over long series (1024 = a multiple of every power-of-two block size up to 1024; 1027 = no such multiple)
+	for _, s := range append([]*gridx.Space{}, out...) {
+		out = append(out, s.LongClones([]int{1024, 1027}, 4)...)
+	}
 	return out
 }
 
